@@ -378,6 +378,14 @@ PROPS["C19"] = drive_plan("exploration", "hist", ["--histories", 3, "--ops", 45]
                           assumptions=_HIST_ASSUME + ["$TMPDIR points outside the memory's directory (Tantivy's scratch directory is not part of the guarantee)"])
 
 
+import sched  # noqa: E402
+
+PROPS["C17"] = drive_plan("exploration", "hist", ["--histories", 3, "--ops", 45], ["--histories", 60, "--ops", 70], custom=sched.c17_schedules, assumptions=_HIST_ASSUME + [
+    "lifetime probe: flock is per open file description, so a second descriptor opened on the path in the same process is a faithful stand-in for another process",
+    "schedules: two real processes; an interleaving fixes the order in which steps are *started*; a blocked open (waiting for the lock, up to the library's 10 s) stays open in the history",
+    "the TLA+ exploration mentioned in the property's quantifier is outside this technique family; what is claimed is the bounded enumeration of schedules of the real code"])
+
+
 # ---- replay ----------------------------------------------------------------------------------
 def replay(pid, spec, path, scratch, t0):
     with open(path) as f:
@@ -413,6 +421,14 @@ def replay(pid, spec, path, scratch, t0):
         return 0
     elif mode == "fault":
         keys = faults.replay(detail, scratch, pid)
+        if rec.get("key") in keys:
+            print(f"VIOLATION property={pid} replay={path}")
+            print(f"  key={rec.get('key')}")
+            return 1
+        print(f"[{pid}] replay: not reproduced (keys seen: {keys})")
+        return 0
+    elif mode == "c17sched":
+        keys = sched.replay(detail, scratch)
         if rec.get("key") in keys:
             print(f"VIOLATION property={pid} replay={path}")
             print(f"  key={rec.get('key')}")
